@@ -459,7 +459,8 @@ def opDiscovery (j : Json) : Except String Json := do
   let allMods := files.map (fun p => Ztr.Discovery.moduleName e roots pkgs p)
   return Json.mkObj [("files", Json.arr (files.map jNatss).toArray),
     ("imported", Json.arr (mods.map jNatss).toArray),
-    ("modules", Json.arr (allMods.map (fun m => match m with | some x => jNatss x | none => Json.null)).toArray)]
+    ("modules", Json.arr (allMods.map (fun m => match m with | some x => jNatss x | none => Json.null)).toArray),
+    ("candidates", Json.arr (files.map (fun p => Json.arr ((Ztr.Discovery.moduleNames e roots pkgs p).map jNatss).toArray)).toArray)]
 
 def dispatch (j : Json) : Except String Json := do
   let op ← J.str! j "op"
